@@ -30,6 +30,7 @@ type Env struct {
 	block       *ssa.BasicBlock
 	pkg         *types.Package
 	inOld       bool
+	siteInvoked map[string]*Term // at a call site: invoked(p) for the callee's consumed parameters
 	site        bool // evaluating a callee contract at a call site: names resolve to vars only
 	args        []Value
 	neg         bool // inside a negation / antecedent: forall not allowed
@@ -422,6 +423,16 @@ func (v *Env) ident(name string) Value {
 		if val, ok := v.e.params[name]; ok {
 			// free variables of closures are cells: the name denotes the content
 			if pv, ok := val.(PtrV); ok && v.e.isFreeVar(name) {
+				for _, fv := range v.e.fn.FreeVars {
+					if fv.Name() == name && v.e.cellIsFinal(fv) {
+						if cv, ok := v.e.finalCells[fv]; ok {
+							return cv
+						}
+						cv := v.e.loadAt(v.e.entry, pv)
+						v.e.finalCells[fv] = cv
+						return cv
+					}
+				}
 				return v.e.loadAt(v.state(), pv)
 			}
 			return val
@@ -605,9 +616,23 @@ func (v *Env) binary(x *SExpr) Value {
 	}
 	// nil comparisons against slices/pointers/funcs
 	if x.Op == "==" || x.Op == "!=" {
-		if iv, ok := b.(IfaceV); ok && isZero(iv.ID) {
+		if iv, ok := b.(IfaceV); ok && isZero(iv.ID) && iv.Dyn == nil {
+			if sl, isSl := a.(SliceV); isSl {
+				r := Eq(sl.Ptr, ConstI(0, Ref))
+				if x.Op == "!=" {
+					r = Not(r)
+				}
+				return Scalar{r}
+			}
 			b = v.nilLike(a)
-		} else if iv, ok := a.(IfaceV); ok && isZero(iv.ID) {
+		} else if iv, ok := a.(IfaceV); ok && isZero(iv.ID) && iv.Dyn == nil {
+			if sl, isSl := b.(SliceV); isSl {
+				r := Eq(sl.Ptr, ConstI(0, Ref))
+				if x.Op == "!=" {
+					r = Not(r)
+				}
+				return Scalar{r}
+			}
 			a = v.nilLike(b)
 		}
 	}
@@ -637,10 +662,20 @@ func (v *Env) nilLike(a Value) Value {
 // simply unspecified).
 func (e *Exec) specBinop(op token.Token, a, b Value) Value {
 	switch op {
-	case token.EQL:
-		return Scalar{e.valuesEqual(a, b)}
-	case token.NEQ:
-		return Scalar{Not(e.valuesEqual(a, b))}
+	case token.EQL, token.NEQ:
+		var eq *Term
+		sa, aok := a.(SliceV)
+		sb, bok := b.(SliceV)
+		if aok && bok {
+			// in contracts slices are compared as headers (same window)
+			eq = And(Eq(sa.Ptr, sb.Ptr), Eq(sa.Len, sb.Len), Eq(sa.Cap, sb.Cap))
+		} else {
+			eq = e.valuesEqual(a, b)
+		}
+		if op == token.NEQ {
+			eq = Not(eq)
+		}
+		return Scalar{eq}
 	}
 	x, y := e.scalarOf(a), e.scalarOf(b)
 	if x.Sort != y.Sort && op != token.SHL && op != token.SHR {
@@ -771,6 +806,16 @@ func (v *Env) selector(x *SExpr) Value {
 		}
 	}
 	base := v.eval(x.Args[0])
+	if iv, ok := base.(IfaceV); ok {
+		if pv, ok := v.e.devirt(iv, nil); ok {
+			v2 := *v
+			v2.vars = map[string]Value{"$dv": pv}
+			for k, val := range v.vars {
+				v2.vars[k] = val
+			}
+			return v2.selector(&SExpr{Kind: SSel, Name: x.Name, Args: []*SExpr{{Kind: SIdent, Name: "$dv"}}})
+		}
+	}
 	switch b := base.(type) {
 	case StructV:
 		su, _ := structOf(b.T)
@@ -796,6 +841,12 @@ func (v *Env) selector(x *SExpr) Value {
 				}
 				return v.e.loadAt(v.state(), p)
 			}
+		}
+		// bound method value  x.M  (compared with stored handlers)
+		if fn := v.findMethod(b, x.Name); fn != nil {
+			key := funcKey(fn) + "$bound"
+			id := App("closure:"+key, Ref, b.Addr)
+			return FuncV{ID: id}
 		}
 		// pointer to pointer (cell): auto-deref
 		if b.Kind == pLoc {
@@ -967,6 +1018,11 @@ func (v *Env) call(x *SExpr) Value {
 			return v.e.iteValue(c, a, b)
 		case "invoked":
 			// number of times this activation completed the given function value
+			if v.siteInvoked != nil && args[0].Kind == SIdent {
+				if t, ok := v.siteInvoked[args[0].Name]; ok {
+					return Scalar{t}
+				}
+			}
 			fvv := v.eval(args[0])
 			id := v.e.scalarOf(fvv)
 			return Scalar{Sub(v.e.invGet(v.state(), id), v.e.invGet(v.e.entry, id))}
